@@ -1,4 +1,5 @@
 """Obligation table: cut the spliced contract text into named clauses and attribute verifier diagnostics to them."""
+import os
 import re
 
 TAG_RE = re.compile(r'//\s*\[([^\]]+)\]\s*$')
@@ -180,8 +181,12 @@ def attribute(diag, table, meta, gen_lines):
         for s in spans:
             if 'failed precondition' in (s['label'] or ''):
                 o = s['origin']
-                callee = o.get('fn') or ghost_fn_at(gen_lines, s['gen_line']) or '?'
-                sub = 'pre:%s:%s' % (callee, clean(s['text']))
+                if o.get('kind') == 'external':
+                    # precondition of a library function (vstd specification, e.g. Result::unwrap / Option::unwrap / indexing)
+                    sub = 'pre:std(%s):%s' % (os.path.basename(str(o.get('file'))), clean(prim[0]['text'])[:70])
+                else:
+                    callee = o.get('fn') or ghost_fn_at(gen_lines, s['gen_line']) or '?'
+                    sub = 'pre:%s:%s' % (callee, clean(s['text']))
     elif 'assertion failed' in msg or 'assert' in msg:
         sub = 'assert:%s' % clean(prim[0]['text'])
     elif 'overflow' in msg or 'underflow' in msg:
